@@ -424,6 +424,75 @@ def boxsize(run, fx):
         run.held('LOADERSIB', inst, rb.where(), '%d bytes per sub-box (%d rectangles) in the preload pool, the lazy record and the advance of read_box' % (want, loopk))
 
 
+def boxcount(run, fx):
+    """LOADERSIB, the count side of the box pool: the number multiplied into the preload pool's size is the sum of the sub-box counts of
+    EVERY glyph read_glyph was called for (glyph 0 is read by a separate call ahead of the loop).  Either read_glyph adds to its
+    out-parameter and every call passes the address of the total, or it stores the glyph's own count and every call is followed by an
+    addition to the total before the next call and before the allocation."""
+    from .util import reaches_avoiding
+    ctor = [f for f in fx.fns_named('graphite2::GlyphCache::GlyphCache') if not f.f.get('implicit')][0]
+    rg = fx.one('graphite2::GlyphCache::Loader::read_glyph')
+    inst = 'the pool counts the sub-boxes of every preloaded glyph'
+    pool = None
+    for e in calls_in(ctor):
+        if (e.get('fq') or '').startswith('graphite2::gralloc') and e.get('args'):
+            refs = [x for x in ctor.walk(e['args'][0]) if x['k'] == 'DeclRefExpr' and x.get('vid') is not None and 'int' in (x.get('t') or '') and x.get('pi') is None]
+            if refs:
+                pool = (e, refs[0]['vid'], ctor.render(refs[0]))
+    calls = calls_in(ctor, 'graphite2::GlyphCache::Loader::read_glyph')
+    pidx = [k for k, p_ in enumerate(rg.f['params']) if '*' in p_['t'] and 'int' in p_['t']]
+    if pool is None or len(calls) < 2 or len(pidx) != 1:
+        run.broken('LOADERSIB', inst, 'preload pool allocation / read_glyph calls / count out-parameter not recognised (%s, %d calls)' % (pool is not None, len(calls)), ctor.where())
+        return
+    pi = pidx[0]
+    stores = []
+    for _, e in rg.elements():
+        if e['k'] in ('BinaryOperator', 'CompoundAssignOperator') and e.get('op') in ('=', '+='):
+            t = rg.strip_all_casts(rg.N(e['c'][0]))
+            if t['k'] == 'UnaryOperator' and t.get('op') == '*':
+                b_ = rg.strip_all_casts(rg.N(t['c'][0]))
+                if b_['k'] == 'DeclRefExpr' and b_.get('pi') == pi:
+                    stores.append(e)
+    if not stores:
+        run.broken('LOADERSIB', inst, 'read_glyph no longer stores through its count parameter', rg.where())
+        return
+    accum = all(e['op'] == '+=' for e in stores)
+    pe, V, vname = pool
+
+    def target(e):
+        a = ctor.strip_all_casts(ctor.N(e['args'][pi]))
+        if a['k'] == 'UnaryOperator' and a.get('op') == '&':
+            a = ctor.strip_all_casts(ctor.N(a['c'][0]))
+            if a['k'] == 'DeclRefExpr':
+                return a.get('vid'), ctor.render(a)
+        return None, ctor.render(a)
+    bad = None
+    for e in calls:
+        tv, tn = target(e)
+        if accum:
+            if tv != V:
+                bad = (e, 'read_glyph adds each glyph\'s sub-box count to its out-parameter, but this call passes `%s`, not the total `%s` the pool is sized by' % (tn, vname))
+        else:
+            if tv is None:
+                bad = (e, 'count argument `%s` is not the address of a local' % tn)
+            elif tv == V:
+                bad = (e, 'read_glyph overwrites its out-parameter with one glyph\'s count, and this call passes the total `%s` itself: the counts of the glyphs read before are lost' % vname)
+            else:
+                adds = [x for _, x in ctor.elements() if x['k'] == 'CompoundAssignOperator' and x.get('op') == '+=' and ctor.strip_all_casts(ctor.N(x['c'][0])).get('vid') == V
+                        and any(w.get('vid') == tv for w in ctor.walk(x['c'][1]))]
+                for tgt in calls + [pe]:
+                    if reaches_avoiding(ctor, e, tgt, avoid=adds):
+                        bad = (e, 'read_glyph stores one glyph\'s sub-box count in `%s`; from this call control reaches %s without `%s += %s`: the glyph\'s sub-boxes are missing from the pool size, '
+                               'and read_box writes its record past the end of the pool' % (tn, 'the next read_glyph call' if tgt is not pe else 'the pool allocation', vname, tn))
+                        break
+        if bad:
+            break
+    if bad:
+        run.violated('LOADERSIB', inst, ctor.loc(bad[0]), bad[1])
+    else:
+        run.held('LOADERSIB', inst, ctor.loc(pe), '%d read_glyph calls, %s contract, total `%s`' % (len(calls), 'accumulating' if accum else 'per-glyph', vname))
+
+
 def run(run):
     fx = run.facts('Q0')
     opssize(run, fx)
@@ -433,6 +502,7 @@ def run(run):
     loadersib(run, fx)
     try:
         boxsize(run, fx)
+        boxcount(run, fx)
     except AnalysisBroken as ex:
         run.broken('LOADERSIB', 'box records: two rectangles per sub-box at every site', str(ex))
     lazyaccess(run, fx)
